@@ -41,6 +41,8 @@ type Program struct {
 	apiFuncs    map[*ssa.Function]externalFn
 	typeMu      sync.Mutex
 	typeCache   map[string]types.Type
+	reMu        sync.Mutex
+	sharedRe    map[*value]*reState
 }
 
 // State of one path execution.
